@@ -34,6 +34,9 @@ func ZZ_C08_Seq(kind, n, maxreads, failures int) {
 	case 4: // different data plans on the same range: headers only vs full blocks
 		f[0] = &glf.Filter{UseHeaders: true}
 		f[1] = &glf.Filter{UseBlocks: true}
+	case 5: // both on cached headers: one attaches logs, the other receipts, to the same shared blocks
+		f[0] = &glf.Filter{UseHeaders: true, UseLogs: true}
+		f[1] = &glf.Filter{UseHeaders: true, UseReceipts: true}
 	default:
 		f[0] = &glf.Filter{UseHeaders: true}
 		f[1] = f[0]
@@ -46,7 +49,7 @@ func ZZ_C08_Seq(kind, n, maxreads, failures int) {
 	for i := 0; i < n; i++ {
 		key := zzvrf.Pick("range", 2)
 		who := 0
-		if kind == 0 || kind == 4 {
+		if kind == 0 || kind == 4 || kind == 5 {
 			who = zzvrf.Pick("caller", 2)
 		}
 		start := uint64(100 + key)
@@ -54,6 +57,9 @@ func ZZ_C08_Seq(kind, n, maxreads, failures int) {
 			key += 2 * who
 		}
 		zzStart, zzLimit, zzTraceCall, zzCurFilter = start, 1, 0, who
+		if kind == 5 {
+			zzCurFilter = 2 // the logs caller's filter matches both logs
+		}
 		fetchesBefore, failsBefore := zzBlockFetches, zzFailures
 		blocks, err := c.Get(context.Background(), "http://node", f[who], start, 1)
 		fetched := zzBlockFetches != fetchesBefore
@@ -123,6 +129,20 @@ func ZZ_C08_Seq(kind, n, maxreads, failures int) {
 			zzvrf.Assert(len(b.Txs) == 1, "T1-one-transaction")
 			if len(b.Txs) == 1 {
 				zzvrf.Assert(uint64(b.Txs[0].GasUsed) == node.TxGasUsed && len(b.Txs[0].Logs) == 1, "T1-receipt-as-uncached")
+			}
+		case 5:
+			zzvrf.Assert(len(b.Txs) == 1, "T1-one-transaction")
+			if len(b.Txs) != 1 {
+				return
+			}
+			tx := &b.Txs[0]
+			zzvrf.Assert(zzvrf.BytesEq(tx.PrecompHash, node.TxHash), "T1-transaction-hash")
+			if who == 1 {
+				// the receipts caller: every receipt-borne field as the uncached client delivers it
+				zzvrf.Assert(uint64(tx.GasUsed) == node.TxGasUsed && byte(tx.Status) == node.TxStatus, "T1-receipt-as-uncached")
+				zzvrf.Assert(zzvrf.BytesEq(tx.From, node.TxFrom) && zzvrf.BytesEq(tx.To, node.TxTo) && byte(tx.Type) == node.TxType, "T1-receipt-sender-recipient-type-as-uncached")
+			} else {
+				zzvrf.Assert(len(tx.Logs) >= 2, "T1-logs-present")
 			}
 		case 4:
 			if who == 1 {
